@@ -39,12 +39,13 @@ ASSUMPTIONS = [
     "that a .gz suffix actually compresses is documented in the docstring but not part of the statement: it is counted (counter gz_plain), not demanded",
 ]
 BOUND = {
-    "quick": "all collections of 0..2 features over the four keys (p,r,f: absent/null/value, q: absent/null/''/value) x 3 geometries; "
-             "all collections of 3 features over each single key (absent/null/2 values; q also '') x 3 geometries; "
-             "13 base collections x (26 single extra members = 5 names x 5 values + 'items', pairs of members, none) x 2 positions of 'features' x indent {default,0,4} x suffix {'', .gz}",
-    "thorough": "quick, plus all collections of 0..2 features over the four keys with the full per-key alphabets (2 values each, q also '' and a quote/backslash/non-ASCII string); "
-                "all collections of 3 features over every pair of keys (full alphabets) x 3 geometries; "
-                "all 0..1-feature collections and 24 two/three-feature collections x all member configurations x indent {default,None,0,1,4} x suffix {'', .gz}",
+    "quick": "118,462 cases: all collections of 0..2 features over the four keys (p,r,f: absent/null/1 value; q: absent/null/''/1 value) x 3 geometries (324 features, 105,301 collections); "
+             "all collections of 3 features over each single key (absent/null/2 values; q: absent/null/''/2 values) x 3 geometries (8,559); "
+             "13 base collections (0..3 features) x 30 member configurations (none; 5 names x 5 values; 'items'; 3 pairs) x position of 'features' {last, first} x indent {default,0,4} x suffix {'', .gz} (4,602)",
+    "thorough": "2,287,956 cases: quick, plus all collections of 1..2 features over the four keys with the full per-key alphabets (2 values each; q also '' and a quote/backslash/non-ASCII string; 960 features, 922,560 collections); "
+                "all collections of 3 features over every pair of keys (full alphabets) x 3 geometries (979,776); "
+                "344 base collections (all 0..1-feature collections, 19 two/three-feature collections) x 40 member configurations (adds names with a newline / empty, values true, 3, '', [], {}, five members at once) "
+                "x position {last, first} x indent {default,None,0,1,4} x suffix {'', .gz} (271,760)",
 }
 TIME_CAP = {"quick": 240, "thorough": 3000}
 
@@ -55,7 +56,7 @@ GEOMS = [None, POINT, POLYGON]
 
 ABSENT = "<absent>"
 
-# per-key value alphabets: "small" = 3 states (q: 4), "full" = 4 states (q: 6)
+# per-key value alphabets: "small" = 3 states (q: 4), "full" = 4 states (q: 5)
 ALPHA = {
     "small": {
         "p": [ABSENT, None, 0],
@@ -297,7 +298,7 @@ def check_case(case, rec):
     try:
         written = R.strict_loads(text)
     except ValueError as e:
-        rec.violation("write", "invalid-json", case, f"{e}; file starts {text[:300]!r}")
+        rec.violation("write", "invalid-json", case, f"{e}; file starts {text[:300]!r}", cls=only_member_names_unescaped(case, text))
         rec.outcome(("write", "invalid-json"))
         return
     bad = R.check_written(case, written)
@@ -329,10 +330,28 @@ def check_case(case, rec):
     rec.sample(case)
 
 
+def only_member_names_unescaped(case, text):
+    """Narrow classifier, decided on the written text itself: the file is invalid, a top-level member
+    name that needs JSON escaping occurs in it verbatim, and escaping just those names makes the file
+    valid with the right features. Anything else that is wrong with the file stays unclassified."""
+    fixed = text
+    hit = False
+    for name, _ in case["extra"]:
+        good = json.dumps(name, ensure_ascii=False)
+        raw = '"' + name + '"'
+        if raw != good and (raw + ": ") in fixed:
+            fixed = fixed.replace(raw + ": ", good + ": ", 1)
+            hit = True
+    if not hit:
+        return None
+    try:
+        doc = R.strict_loads(fixed)
+    except ValueError:
+        return None
+    if R.check_written(case, doc) is not None:
+        return None
+    return "top-level member name written without JSON escaping"
+
+
 def classify(v):
-    case = v.get("case") or {}
-    names = [m[0] for m in case.get("extra", [])]
-    needs_escape = any(any(c in n for c in "\"\\") or any(ord(c) < 32 for c in n) for n in names)
-    if v["op"] == "write" and v["clause"] == "invalid-json" and needs_escape:
-        return "top-level member name needs JSON escaping"
     return None
